@@ -1,7 +1,7 @@
 ------------------------------ MODULE Mount_Gen ------------------------------
 EXTENDS Mount_MC, Json, SequencesExt
 MountSets == {ms \in SUBSET MCPats : ms # {} /\ Cardinality(ms) <= 3 /\ NoDup(ms)}
-ASSUME \A ms \in MountSets : \A ex \in {{}, MCExtras} :
+ASSUME \A ms \in MountSets : \A ex \in {{}, MCExtrasPlain, MCExtras} :
          PrintT(<<"CASE", ToJson([patterns |-> SetToSeq(ms), extras |-> SetToSeq(ex)])>>)
 NoPaths == {}
 =============================================================================
